@@ -541,7 +541,8 @@ Four more sub-agents (hedger.py; the instruments; features and the Black-Scholes
 three refactorings each that carry one defect, restricted to the idioms of §9.4h (decorators, context managers, try/except/else, lazily
 consumed generators, `reduce` pipelines, memos, template methods, helper objects, class-level tables). 12 candidates, all re-confirmed
 (`seeded/Hnn-k/`). First run against the checks as they stood after §9.4h: 8 reported by the check of the property the agent named, 2 only
-by another property's check (H02-1, H04-3), 2 ended in analysis errors in every check that follows the changed code (H01-3, H02-3).
+by another property's check (H02-1, H04-3), 2 ended in analysis errors in every check that follows the changed code (H01-3, H02-3). After the
+work below 11 are reported by the check of the property the agent named and one has no verdict.
 
 | seed | change (one line, from the agent's meta.json) | verdict | checks that report it | first rule |
 |---|---|---|---|---|
@@ -559,9 +560,11 @@ What the ninth round changed, and what it left:
   sound-memo test nor the hit path saw it; C02 / C12 / C13 / C16 reported the store, C17 - the property the agent named - did not. C17.R6
   now inspects what the feature readers remember: a `(key, value)` pair whose value is cast like a tensor whose dtype the key does not
   record.
-* **Left as found**: H04-3 (the Whalley-Wilmott band constants memoised under `(id(derivative), a)`, without the cost) is reported by C16.R3m
-  ("what one call leaves on the model is read by the next") and not by C20, whose rules evaluate `forward` on a fresh module; the agent lists
-  C16 as the second property it breaks. H02-3 (`payoff()` as `reduce` over a memoised tuple `(payoff_fn, *self.clauses())`, the memo keyed by
+* **A cost sweep on one Whalley-Wilmott module** (H04-3: the band constants memoised under `(id(derivative), a)`, without the cost) was reported by
+  C16.R3m ("what one call leaves on the model is read by the next") and not by C20, whose rules evaluated `forward` on a fresh module. C20.R3
+  has a call history now - evaluate, assign a new cost rate to the underlier, evaluate again on the same module: the second band depends
+  on the new rate and on no other.
+* **Left as found**: H02-3 (`payoff()` as `reduce` over a memoised tuple `(payoff_fn, *self.clauses())`, the memo keyed by
   the clause NAMES) ends every check that follows `payoff()` in an analysis error - a sequence of unknown length unpacked into a tuple
   display has no model - so there is no verdict on it (exit 2), neither a miss nor a catch; C12.R3 judges every path of the three-clause
   fallback now instead of demanding one.
@@ -573,7 +576,7 @@ def round9():
     r_ = rows_for(r"H\d\d-\d")
     if not r_:
         return
-    first9 = {"H01-3": "analysis errors in C02, C03, C06, C14, C15, C16, C17", "H02-1": "reported by C02, C12, C13, C16 only", "H02-3": "analysis errors in 10 checks (unchanged: no verdict)"}
+    first9 = {"H01-3": "analysis errors in C02, C03, C06, C14, C15, C16, C17", "H02-1": "reported by C02, C12, C13, C16 only", "H04-3": "reported by C16 only", "H02-3": "analysis errors in 10 checks (unchanged: no verdict)"}
     t_ = "".join(f"| {sid} ({prop}) | {what} | {verdict}{' (first run: ' + first9[sid] + ')' if sid in first9 else ''} | {fired} | {rule} |\n" for sid, prop, what, verdict, fired, rule in r_)
     p = V / "DESIGN.md"
     s = p.read_text()
